@@ -48,7 +48,7 @@ ASSUMPTIONS = [
     "only option combinations the library documents as interoperable are paired (a masked-frames-requiring server is never paired with a non-masking client, applyMask is switched on both ends together)",
     "documented option semantics are modelled, not flagged: the mask bit is judged against maskClientFrames / maskServerFrames; with applyMask=False the payload is compared as written (mask key present, octets not XORed); prepared messages are judged by role because PreparedMessage documents role-based masking",
     "sendFrame() is driven only with what a conforming caller passes (message opcode on the first frame, 0 on the others, FIN on the last, no RSV bits, optional payload_len repetition, chopsize, sync and - in a few cases - an explicit 4-octet mask key); it is the only route to write chopping",
-    "streaming API grey zones that are NOT asserted: (a) a zero-length frame is completed the way sendMessageFrame(b'') does it, by an empty sendMessageFrameData() - beginMessageFrame(0) immediately followed by another beginMessageFrame() raises 'invalid in current sending state', the docstring only says the frame ends 'when enough data has been sent'; (b) the sign of sendMessageFrameData's return value for an over-long chunk (docstring: 'amount of unconsumed data', code: negative) - both accepted; (c) pings are only delivered to a side that is not inside a half-written streamed frame (an automatic pong there is an inherent hazard of that API)",
+    "streaming API grey zones that are NOT asserted: (a) a zero-length frame is completed the way sendMessageFrame(b'') does it, by an empty sendMessageFrameData() - beginMessageFrame(0) immediately followed by another beginMessageFrame() raises 'invalid in current sending state', the docstring only says the frame ends 'when enough data has been sent'; (b) the sign of sendMessageFrameData's return value for an over-long chunk (docstring: 'amount of unconsumed data', code: negative) - both accepted; (c) control frames the APPLICATION itself sends (sendPing / sendPong / sendClose) while it is inside a half-streamed frame are API misuse and not generated - control frames the LIBRARY sends on its own there (automatic pong for a peer ping, autoPingInterval tick) are generated and judged (S-01e)",
     "whether a message is compressed at all is the sender's choice (RFC 7692): only 'RSV1 => inflates to what was sent' and 'RSV1 only with a negotiated extension' are asserted",
     "the early-data sub-scenario (frames in the same segment as the client's opening request) drives the server-side hand-over with a reference-built client stream; a conforming client never does this, the library documents 'process rest, if any'",
     "segmentation policy 'tlsburst' (and the 'burst' variant of every cut position on asyncio): k = 2..6 chunks reach the asyncio adapter by back-to-back data_received() calls inside ONE read event, the loop runs only afterwards (vf.world.AioEndpoint.feed_burst). The asyncio.Protocol contract permits that (a transport may hand over one chunk per decrypted record / buffer; the adapter's receive queue exists for it) although CPython >= 3.11's own selector and ssl transports make one call per read event; on Twisted, where dataReceived() is synchronous, the same chunks are k ordinary read events",
@@ -66,7 +66,8 @@ DECIDING = {
     "mix_stream_under_pmce": 50, "mix_prepared_applymask_off": 20, "mix_sendframe_explicit_mask": 50,
     "mix_begin_end_without_frame": 20, "aio_bursts_delivered": 200,
     "asym_takeover_conns_2plus_msgs_each_way": 100, "asym_takeover_c1_s0": 30, "asym_takeover_c0_s1": 30,
-    "echo_payloads": 500,
+    "echo_payloads": 500, "deliveries_while_peer_inside_streamed_frame": 100, "pongs_compared_on_wire": 100,
+    "octets_injected_into_streamed_frame": 0,
 }
 
 BORDER_LENGTHS = [0, 1, 2, 3, 124, 125, 126, 127, 128, 129, 65534, 65535, 65536, 65537, 131071, 131072, 131073]
@@ -221,6 +222,10 @@ def derive_cfg(rng, force):
         "autofrag": {"client": 0, "server": 0},
         "logging": rng.random() < 0.04,
         "pings": rng.random() < 0.3,
+        # autoPingInterval ticks into half-streamed frames: implemented (force cfg {"autoping": True}, Twisted only) but
+        # NOT drawn - under the virtual clock the library re-arms the auto-ping at once after every pong, i.e. a
+        # ping/pong storm per delivery that makes a case ~10x slower; the automatic PONG path shows the same defect
+        "autoping": rng.random() < 0.0,
         "style": rng.choice(["interleaved", "interleaved", "burst", "lockstep"]),
         "hs_seg": rng.choice(["whole", "whole", "split", "bytewise"]),
         "wbits": [rng.randint(9, 15), rng.randint(9, 15)],
@@ -418,6 +423,10 @@ class Side:
     def _on_message_event(self, payload, is_binary=None):
         self.listener.append((bytes(payload), bool(is_binary)))
 
+    def written(self):
+        """Octets this endpoint has produced so far (on the transport or parked in the send queue)."""
+        return len(self.ep.all_out) + sum(len(e[0]) for e in self.proto.send_queue)
+
     def has_more(self):
         return self.dead is None and (bool(self.steps) or self.next_plan < len(self.plans))
 
@@ -521,6 +530,7 @@ class Side:
                     pr.beginMessageFrame(sz)
                     state["left"] = sz
                     self.in_frame = sz > 0
+                    state["mark"] = self.written() if sz > 0 else None
                 st.append(("bframe", begin_frame))
                 left = sz
                 chunks = []
@@ -542,10 +552,15 @@ class Side:
                         chunk = payload[pos:pos + c]     # may reach beyond this frame (over-long chunk)
                         want_rest = state["left"] - len(chunk)
                         was_open = pr.state == pr.STATE_OPEN
+                        # monitor: between two data calls of ONE frame only the application's octets may be written
+                        if state.get("mark") is not None and self.written() != state["mark"] and not rec.get("ctl_in_frame"):
+                            rec["ctl_in_frame"] = self.written() - state["mark"]
+                            run.R.count("octets_injected_into_streamed_frame")
                         got = pr.sendMessageFrameData(chunk, sync=bool(p.get("sync")))
                         used = min(len(chunk), state["left"])
                         state["pos"] = pos + used
                         state["left"] -= used
+                        state["mark"] = self.written() if state["left"] > 0 else None
                         if state["left"] == 0:
                             self.in_frame = False
                         run.R.count("stream_chunks")
@@ -658,6 +673,7 @@ class CaseRun:
         self.pmce_on = False
         self.pmce_params = None
         self.sender_fault = {"c2s": None, "s2c": None}
+        self.autoping_ticks = 0
 
     def violation(self, direction, clause, rec, what, detail=None):
         key = "C01/%s/%s/%s" % (direction, clause, rec["feat"] if rec else "-")
@@ -700,8 +716,17 @@ class CaseRun:
         self.rng_api = random.Random(rng.getrandbits(64))
         self.rng_sched = random.Random(rng.getrandbits(64))
         self.cfg = cfg = derive_cfg(rng, case.get("force", {}))
+        import txaio
+        if cfg.get("autoping") and not txaio.using_twisted:
+            # the asyncio virtual clock re-fires the 200 ms batched auto-ping timer without bound once it is due;
+            # autoPingInterval ticks are therefore driven on Twisted only (peer pings into half-streamed frames run
+            # on both frameworks)
+            cfg["autoping"] = False
+        if cfg.get("autoping"):
+            cfg["pings"] = False        # keeps the ping bookkeeping simple: every ping on the wire is an automatic one
         if self.kind == "cuts":
             cfg["pings"] = False
+            cfg["autoping"] = False
             cfg["hs_seg"] = "whole"
             cfg["autofrag"] = {"client": 0, "server": 0}
             cfg["logging"] = False
@@ -720,6 +745,9 @@ class CaseRun:
               "utf8validateIncoming": cfg["utf8"], "autoFragmentSize": cfg["autofrag"]["server"]}
         co = {"maskClientFrames": mc, "acceptMaskedServerFrames": acc, "applyMask": apply_,
               "utf8validateIncoming": cfg["utf8"], "autoFragmentSize": cfg["autofrag"]["client"]}
+        if cfg.get("autoping"):
+            for o in (so, co):
+                o.update(autoPingInterval=0.3, autoPingTimeout=0)
         if cfg["pmce"]:
             self._pmce_options(so, co)
         self.ws = w = WS()
@@ -871,8 +899,8 @@ class CaseRun:
         avail = link.pending(side.ep)
         if not avail:
             return 0
-        if peer.in_frame and self.cfg["pings"]:
-            return 0       # see ASSUMPTIONS: no control frames into a half-streamed frame
+        if peer.in_frame:
+            self.R.count("deliveries_while_peer_inside_streamed_frame")
         return self._deliver_next(side)
 
     def drive(self):
@@ -887,8 +915,13 @@ class CaseRun:
                 raise RuntimeError("drive: no progress bound hit")
             choices = []
             senders = [sd for sd in self.sides if sd.has_more()]
-            pend = [sd for sd in self.sides if self.link.pending(sd.ep)
-                    and not ((self.server if sd is self.client else self.client).in_frame and self.cfg["pings"])]
+            pend = [sd for sd in self.sides if self.link.pending(sd.ep)]
+            if self.cfg["autoping"] and self.autoping_ticks < 3 and any(sd.in_frame for sd in self.sides) and rs.random() < 0.05:
+                # an autoPingInterval tick while a frame is half-streamed
+                self.autoping_ticks += 1
+                world.advance(0.45)
+                self.R.count("autoping_ticks_inside_streamed_frame")
+                continue
             nd = world.next_deadline()
             timer = nd is not None and nd <= world.now() + 0.01
             if style == "burst":
@@ -1029,6 +1062,16 @@ class CaseRun:
             # pings
             got_pings = [bytes(e[2]) for e in app_events(peer.ep, ("onPing",))]
             got_pongs = [bytes(e[2]) for e in app_events(side.ep, ("onPong",))]
+            if not pair_down and getattr(peer, "wire_pongs", None) is not None and peer.wire_pongs != got_pings:
+                # every ping is answered with a pong carrying the ping's payload (eventually: the run has drained)
+                self.violation("s2c" if d == "c2s" else "c2s", "pong-not-echoing-ping", None,
+                               "pings received %d, pongs written %d (or payloads differ)" % (len(got_pings), len(peer.wire_pongs)))
+            R.count("pongs_compared_on_wire", len(got_pings))
+            if cfg.get("autoping"):
+                if got_pings != getattr(side, "wire_pings", got_pings):
+                    self.violation(d, "ping-delivery", None, "automatic pings on the wire %d, onPing calls at the peer %d" % (
+                        len(side.wire_pings), len(got_pings)))
+                continue
             if got_pings != side.pings:
                 self.violation(d, "ping-delivery", None, "pings sent %d, onPing calls at the peer %d" % (len(side.pings), len(got_pings)))
             if got_pongs != side.pings:
@@ -1205,6 +1248,16 @@ class CaseRun:
                     cand(first_pos, "sender/payload", rec, "unfinished message #%d: the %d octets written so far are not a "
                          "prefix of the %d octets sent" % (len(msgs), len(plain), rec["len"]),
                          {"sent_head": rec["payload"][:48].hex(), "wire_head": plain[:48].hex()})
+        # runtime monitor: octets the application did not hand over were written inside a frame it was streaming
+        for i, r in enumerate(sent):
+            if r.get("ctl_in_frame"):
+                pos = msgs[i].first_frame if i < len(msgs) else min(
+                    [k for k in range(nfr) if owner[k] == i and frames[k].opcode not in ref.CONTROL_OPS] or [nfr])
+                cand(pos - 0.25, "sender/control-frame-inside-streamed-frame", r,
+                     "%d octets the application did not pass (a control frame the library sent on its own: automatic "
+                     "pong / ping) were written between two sendMessageFrameData() calls of ONE frame of message #%d" % (
+                         r["ctl_in_frame"], i))
+                break
         # a send API that raised on an open connection: that message is (at best) incomplete on the wire
         for sd, kind, e, conn_lost, rec in self.send_raised:
             if sd is side and not conn_lost:
@@ -1216,7 +1269,11 @@ class CaseRun:
         ctl = [(f.opcode, f.payload if side.apply_mask() else f.raw_payload, k) for k, f in enumerate(frames)
                if f.opcode in ref.CONTROL_OPS]
         wire_pings = [p for (op, p, k) in ctl if op == ref.OP_PING]
-        if wire_pings != side.pings:
+        side.wire_pings = wire_pings
+        side.wire_pongs = [p for (op, p, k) in ctl if op == ref.OP_PONG]
+        if self.cfg.get("autoping"):
+            R.count("autopings_on_wire", len(wire_pings))
+        elif wire_pings != side.pings:
             if wire_pings == side.pings[:len(wire_pings)]:
                 cand(nfr, "sender/ping-missing", None, "pings sent %d, on the wire %d" % (len(side.pings), len(wire_pings)), soft=True)
             else:
@@ -1560,6 +1617,6 @@ MANIFEST_ENTRY = {
              "found - streaming API under permessage-deflate, prepared messages with applyMask=False, sendFrame with an "
              "explicit mask key, beginMessage/endMessage without a frame - are repaired in the tree and their triggers are "
              "part of the regular workload); not a proof."),
-    "note": "trusts vf/rfc6455_ref.py, vf/c01_wire.py (self-checked against the RFC examples and each other), zlib; payloads > 4 MiB, TLS, real sockets, mixed-framework pairs and pings into half-streamed frames are not driven; streaming-API grey zones (zero-length frame completion, sign of the over-long-chunk return value) are accepted either way",
+    "note": "trusts vf/rfc6455_ref.py, vf/c01_wire.py (self-checked against the RFC examples and each other), zlib; payloads > 4 MiB, TLS, real sockets, mixed-framework pairs and application-called sendPing/sendClose inside a half-streamed frame (API misuse) are not driven; streaming-API grey zones (zero-length frame completion, sign of the over-long-chunk return value) are accepted either way",
     "technique": "runtime monitoring: tagged-history comparison (send log = reference-parsed wire = receive log) over generated and exhaustively cut executions on a virtual clock",
 }
